@@ -157,6 +157,27 @@ func corpus(e *ev.Env) {
 	hist(e, "skip-successful-status-set-then-error", sto(fixedW(1, 3)).skipSuccessful(), steps(rq("201>err"), rq("201>err")))
 	hist(e, "skip-successful-status-set-then-error-sliding", mem(slidingW(2, 3)).skipSuccessful(), steps(rq("404>err302"), rq("204>err"), rq("302>err503"), rq("500")))
 
+	// ---- Max and MaxFunc omitted: the documented default Max = 5 is the limit (8 requests in one
+	// window: 5 admitted, 3 rejected; again in the next window)
+	for _, w := range []tcfg{mem(fixedW(5, 2)), sto(fixedW(5, 2)), mem(slidingW(5, 2)), sto(slidingW(5, 2)).skipFailed()} {
+		w.MaxOmitted = true
+		hist(e, "max-omitted-default-5-"+w.algo()+"-"+w.backend(), w, steps(
+			rq("200"), rq("200"), rq("200"), rq("200"), rq("200"), rq("200"), rq("200"), rq("200"),
+			rq("200").after(5000), rq("200"), rq("200"), rq("200"), rq("200"), rq("200"), rq("200")))
+	}
+
+	// ---- a KeyGenerator whose answer changes once the handler has identified the user: a
+	// request is counted, and taken back, under the key it was admitted with. Key 1 uses up its
+	// budget with failures; key 0's successful requests (skipped) identify the user as key 1:
+	// all of them are admitted, and key 1 stays at its limit.
+	rk := func(s tstep, k int) tstep { s.Rekey = k + 1; return s }
+	for _, w := range []tcfg{mem(fixedW(2, 4)), sto(fixedW(2, 4)), mem(slidingW(2, 4)), sto(slidingW(2, 4))} {
+		hist(e, "key-changes-after-handler-"+w.algo()+"-"+w.backend(), w.skipSuccessful().keys(2), steps(
+			rq("500").key(1), rq("500").key(1), rq("500").key(1),
+			rk(rq("200"), 1), rk(rq("200"), 1), rk(rq("200"), 1), rk(rq("200"), 1),
+			rq("500").key(1), rq("500"), rq("500"), rq("500")))
+	}
+
 	// ---- probe, not a verdict: fiber.Storage documents "Empty key or value will be ignored"
 	// for Set. A KeyGenerator that returns "" (the documentation's own example reads a header
 	// that may be absent) therefore is never limited on an external storage.
